@@ -23,9 +23,9 @@
   (`blockMat`).  The sweep touches, for every block, only the segment `off … off+dim-1` of the
   vector; `homVec` states that per component (block `locate`d by its row).
 
-  `Homogenization::run` ignores the non-zero return value of `cholDec` (a block that is not
-  positive definite is used half-factored).  That path belongs to property C10
-  (notes/proposed/C10-homogenization-nonpd.diff); here it is `NotModelled`.
+  A block that `cholDec` rejects (`return block`) makes `Homogenization::run` throw
+  `Exception::NonPositiveDefinite` (repo commit 7e9fd7d2, C10's patch; before it the return value
+  was ignored and the half-factored block was used): every query of `AdjEnvelope` then throws.
 
   A sparse row with a repeated column index is outside the model (the C++ keeps both
   elements for uncorrelated blocks and overwrites for correlated ones).
@@ -96,7 +96,7 @@ structure Homog (K : Type) where
 /-- `Homogenization::run` -/
 def homogenize (p : Problem K) : Except ErrKind (Homog K) :=
   match factorsU p.cov.toList with
-  | none => .error .NotModelled
+  | none => .error .NonPositiveDefinite
   | some Fs =>
     let A := p.dense
     let dims := p.cov.toList.map (·.dim)
